@@ -76,6 +76,11 @@ func boundary() []Scenario {
 		{Op: "sleep", Secs: 46},
 		{Op: "logs", Nodes: all4, Logs: seqInts(180, 182), BlkOff: 9},
 		{Op: "round", Nodes: all4, Byz: "copy1"}, {Op: "round", Nodes: all4, Byz: "copy1"}}})
+	// exactly 100 candidates staged on every node: the observation carries exactly the advertised maximum of
+	// performables and must still be accepted by every peer, so the work is agreed at once
+	ss = append(ss, Scenario{Family: "exactly-100-candidates", N: 4, F: 1, Byz: []int{3}, Steps: []Step{
+		{Op: "logs", Nodes: all4, Logs: seqInts(2000, 2100)}, {Op: "expect", Kind: "log", Logs: seqInts(2000, 2100), Conf: 2},
+		{Op: "round", Nodes: all4, Byz: "honest"}, {Op: "round", Nodes: all4, Byz: "honest"}}})
 	// an unusual but legal gas configuration: some units of work alone exceed the report gas limit (single-upkeep
 	// reports); what the report carries must still be, field for field, what was checked and agreed
 	ss = append(ss, Scenario{Family: "heavy-gas-over-report-limit", N: 4, F: 1, Byz: []int{3}, Heavy: true, Steps: []Step{
@@ -105,7 +110,8 @@ func boundary() []Scenario {
 		{Op: "sleep", Secs: 120}, {Op: "round", Nodes: all4, Byz: "honest"}}})
 	// many candidates: cap 100, several rounds
 	ss = append(ss, Scenario{Family: "many-candidates", N: 4, F: 1, Byz: []int{3}, Steps: []Step{
-		{Op: "logs", Nodes: all4, Logs: seqInts(1000, 1130)}, {Op: "round", Nodes: all4, Byz: "replay"}, {Op: "round", Nodes: all4, Byz: "replay"},
+		{Op: "logs", Nodes: all4, Logs: seqInts(1000, 1130)}, {Op: "expect", Kind: "log", Logs: seqInts(1000, 1130), Conf: 3},
+		{Op: "round", Nodes: all4, Byz: "replay"}, {Op: "round", Nodes: all4, Byz: "replay"},
 		{Op: "round", Nodes: all4, Byz: "replay"}}})
 	ss = append(ss, condFamilies()...)
 	// f = 0
